@@ -216,3 +216,107 @@ def vec_close(a, b, tol=TOL):
 
 def norm2(psi):
     return sum(abs(a) ** 2 for a in psi)
+
+
+# ------------------------------------------------------------------ shared run/compare driver
+def run_histories(chk, histories, stream="sim"):
+    """histories: list of (tag, ops). Runs all through impl and model, compares, returns
+    (per-history list of (op, reply, state_or_None)), and the first correspondence disagreement."""
+    lines, spans = [], []
+    for (_tag, ops) in histories:
+        ls = with_state(ops)
+        spans.append((len(lines), len(lines) + len(ls)))
+        lines += ls
+    impl, model, diag = run_pair(lines)
+    stats = {}
+    bad_idx, why = compare_streams(lines, impl, model, stats)
+    chk.extra["correspondence"] = {"lines": len(lines), "histories": len(histories), **stats,
+                                   "first_disagreement": why}
+    per = []
+    for hi, (a, _b) in enumerate(spans):
+        ops = histories[hi][1]
+        li = a
+        rows = []
+        for op in ops:
+            rep = impl[li] if li < len(impl) else ""
+            li += 1
+            st = None
+            if not op.startswith("new"):
+                st = parse_state(impl[li]) if li < len(impl) else None
+                li += 1
+            else:
+                st = (0, [1 + 0j])
+            rows.append((op, rep, st))
+        per.append(rows)
+    disagreement = None
+    if bad_idx is not None:
+        hi = next((i for i, (a, b) in enumerate(spans) if a <= bad_idx < b), len(spans) - 1)
+        disagreement = {"history": histories[hi][1], "line": bad_idx - spans[hi][0], "why": why, "diag": diag}
+    return per, disagreement
+
+
+def report_correspondence(chk, disagreement, searched):
+    if disagreement is None:
+        return
+    chk.violation("correspondence: Lean model and real simulator disagree (%s); %s" % (disagreement["why"], searched),
+                  {"ops": disagreement["history"], "kind": "sim-history", "stream": "sim",
+                   "line": disagreement["line"], "diag": disagreement["diag"]},
+                  arm="correspondence:sim", found_input=False)
+
+
+def mass(psi, q, b):
+    acc = 0.0
+    for i, z in enumerate(psi):
+        if ((i >> q) & 1) == b:
+            acc += z.real * z.real + z.imag * z.imag
+    return acc
+
+
+def shrink_ops(ops, fails):
+    cur = list(ops)
+    i = 1
+    while i < len(cur) - 1:
+        if cur[i] == "alloc":
+            i += 1
+            continue
+        cand = cur[:i] + cur[i + 1:]
+        try:
+            ok = fails(cand)
+        except Exception:
+            ok = False
+        if ok:
+            cur = cand
+        else:
+            i += 1
+    return cur
+
+
+def impl_rows(ops):
+    lines = with_state(ops)
+    impl, _rc, _ = run_lines(harness(), lines)
+    rows, li = [], 0
+    for op in ops:
+        rep = impl[li] if li < len(impl) else ""
+        li += 1
+        st = (0, [1 + 0j])
+        if not op.startswith("new"):
+            st = parse_state(impl[li]) if li < len(impl) else None
+            li += 1
+        rows.append((op, rep, st))
+    return rows
+
+
+def generic_replay(path, oracle_name, oracle_fn):
+    import json
+    obj = json.load(open(path))
+    ops = obj.get("ops")
+    if not ops:
+        print(json.dumps(obj, indent=1))
+        return 1
+    lines = with_state(ops)
+    impl, model, _ = run_pair(lines)
+    for l, a, b in zip(lines, impl, model):
+        print(l, "\n   impl :", a[:160], "\n   model:", b[:160])
+    bad = oracle_fn(ops)
+    print("%s fails on the real simulator: %s" % (oracle_name, bad))
+    return 1 if bad else 0
